@@ -270,7 +270,10 @@ def decide(prop, tier, seed):
         for k2, v2 in g.stats.items():
             rules[k2] = rules.get(k2, 0) + v2
         ext = {f["id"]: f for f in g.fns}
-        if base["assumption_sites"].get(key) is not None and base["assumption_sites"][key] != u["assumption_sites"]:
+        # bare-mode functions carry `exec_allows_no_decreases_clause` added by the generator itself: their verdict is
+        # "not decided" anyway, so the extra sites are not reported a second time
+        n_bare = len(u.get("bare") or [])
+        if base["assumption_sites"].get(key) is not None and not (base["assumption_sites"][key] <= u["assumption_sites"] <= base["assumption_sites"][key] + n_bare):
             undecided.append("%s: assumption scan found %d trusted sites, allow-list has %d" % (key, u["assumption_sites"], base["assumption_sites"][key]))
         if base.get("obligation_counts", {}).get(key) is not None and base["obligation_counts"][key] != len(u["obligations"]):
             undecided.append("%s: obligation count %d differs from recorded %d" % (key, len(u["obligations"]), base["obligation_counts"][key]))
